@@ -1,6 +1,9 @@
 package hx
 
 import (
+	"fmt"
+	"os"
+
 	"github.com/alibaba/sentinel-golang/api"
 	"github.com/alibaba/sentinel-golang/core/config"
 	"github.com/alibaba/sentinel-golang/logging"
@@ -31,6 +34,16 @@ func InitSentinel() {
 	e.Sentinel.Stat.System.CollectCpuIntervalMs = 0
 	e.Sentinel.Stat.System.CollectMemoryIntervalMs = 0
 	e.Sentinel.UseCacheTime = false
+	// VERIF_STAT_CFG="sampleCount,intervalMs,globalSampleCount,globalIntervalMs": a non-default geometry of the per-resource
+	// statistic (default view over the global array); chosen by the check, never by the scenario
+	if v := os.Getenv("VERIF_STAT_CFG"); v != "" {
+		var a, b, c, d uint32
+		if n, _ := fmt.Sscanf(v, "%d,%d,%d,%d", &a, &b, &c, &d); n != 4 {
+			panic("bad VERIF_STAT_CFG " + v)
+		}
+		e.Sentinel.Stat.MetricStatisticSampleCount, e.Sentinel.Stat.MetricStatisticIntervalMs = a, b
+		e.Sentinel.Stat.GlobalStatisticSampleCountTotal, e.Sentinel.Stat.GlobalStatisticIntervalMsTotal = c, d
+	}
 	if err := api.InitWithConfig(e); err != nil {
 		panic(err)
 	}
